@@ -18,4 +18,11 @@ func init() {
 		Real:        []string{"value.SymbolTableStruct (fresh instance and the global value.SymbolTable)", "value.ToSymbol", "sync.RWMutex (Go runtime)"},
 		Stub:        []string{"goroutine scheduling (token scheduler)", "client tasks (harness code calling the public Go API)"},
 	}
+	engineTable["C16"] = engineInfo{
+		Engine:      "C16",
+		Rule:        "case = generated Elk program building a promise DAG (3-12 async tasks: leaf, spin, slow(timeout), boom(throws), chain, join2, guard(catch); 0-2 go threads awaiting main's promises synchronously; sinks awaited in random order) x pool size 1-4 x queue capacity from {1,2,3,N,4N} (N = bound on enqueues) x one schedule; oracle: run ends, no Go panic, printed token multiset equals the reference evaluator's (each awaiter resumed exactly once, each promise settled exactly once). Non-trivial: >= 3 tasks and >= 3 context switches; distinct: hash of (source, pool, queue, schedule deviation trace)",
+		Assumptions: commonAssumptions,
+		Real:        append([]string{"vm.Promise", "vm.ThreadPool / threadWorker / executeBytecodePromise", "AWAIT / AWAIT_RESULT / AWAIT_SYNC", "Kernel#timeout"}, realAll...),
+		Stub:        stubAll,
+	}
 }
